@@ -400,7 +400,7 @@ func frameLayout(c *core.Ctx) {
 	// length/payload coherence: the buffer whose Len() is written is the one copied afterwards
 	copied := ""
 	for _, call := range astx.Calls(w.Body) {
-		if astx.IsPkgFunc(astx.Callee(info, call), "io", "Copy") && len(call.Args) == 2 && call.Pos() > wl.call.Pos() {
+		if astx.IsPkgFunc(astx.Callee(info, call), "io", "Copy") && len(call.Args) == 2 && astx.Precedes(w.Body, wl.call, call) {
 			copied = astx.CanonKey(info, call.Args[1])
 		}
 	}
